@@ -492,6 +492,16 @@ def readAllFrag : Endian → List (List UInt8) → List ROp → Endian × List R
     let r' := readAllFrag r.1 r.2.1 ops
     (r'.1, r.2.2 :: r'.2.1, r'.2.2)
 
+/-- `Socket::operator>>(String&)` over pieces: `*this >> n; x = readString(n)`, `readString`: `n = read(&s[0], n); s.fix(n)`
+    (`none` as in `getString`: fewer than 4 / than `n` bytes pending, where the real call would block) -/
+def getStringFrag (e : Endian) (ps : List (List UInt8)) : Option (List UInt8 × List (List UInt8)) :=
+  if ps.flatten.length < 4 then none else
+  let r := getScalarFrag e .i32 ps
+  let n := r.1
+  if n ≥ 2 ^ 31 then some ([], r.2)
+  else if r.2.flatten.length < n then none
+  else let q := sockReadBytes n r.2; some (q.1, q.2)
+
 /-- the bytes `bs` (first byte at offset `i`) cut before every offset listed in `offs` -/
 def cutGo (offs : List Nat) : Nat → List UInt8 → List (List UInt8)
   | _, [] => []
